@@ -173,6 +173,11 @@ impl<'a> InteriorNode<'a> {
             "expected BTreeInterior page, got {:?}",
             header.page_type()
         );
+        ensure!(
+            INTERIOR_CONTENT_START + header.cell_count() as usize * INTERIOR_SLOT_SIZE <= PAGE_SIZE,
+            "corrupt interior page: cell_count {} does not fit the page",
+            header.cell_count()
+        );
         Ok(Self { data })
     }
 
@@ -268,6 +273,11 @@ impl<'a> InteriorNodeMut<'a> {
             header.page_type() == PageType::BTreeInterior,
             "expected BTreeInterior page, got {:?}",
             header.page_type()
+        );
+        ensure!(
+            INTERIOR_CONTENT_START + header.cell_count() as usize * INTERIOR_SLOT_SIZE <= PAGE_SIZE,
+            "corrupt interior page: cell_count {} does not fit the page",
+            header.cell_count()
         );
         Ok(Self { data })
     }
